@@ -278,6 +278,20 @@ def run(chk):
                                     r2.violate(f"{g.key}|caller-disables-mask", g.where(c), f"{g.key} calls _predict with `{flag}=False`")
             r2.inst(f"{fi.key}|callers-scan")
 
+    # ---------------- R07.4: billing aggregation sums observed and predicted of the *same* (masked) frame
+    r4 = chk.rule("R07.4", "billing aggregation reads observed and predicted from the frame returned by _predict (the one whose usage was masked), with the same frequency", 2)
+    from rules.c19 import aggregation_table
+    for mc in (BILLING_MODEL, WEIGHTED_MODEL):
+        c = chk.repo.cls(*mc)
+        p = method(chk, c, "predict")
+        src, table = aggregation_table(chk, p)
+        o, pr = table.get("observed"), table.get("predicted")
+        ok = o is not None and pr is not None and o[2] == pr[2] == src and o[1] == pr[1] and o[0] == pr[0] == "sum"
+        r4.require(ok, f"{p.key}|observed-and-predicted-from-masked-frame", p.where(o[3]) if o else p.where(),
+                   f"{p.qualname}: aggregated observed is read from `{o[2] if o else None}` and predicted from `{pr[2] if pr else None}` (the _predict result is `{src}`): "
+                   f"observed must come from the frame whose usage was masked on days without temperature, otherwise period sums include days that got no prediction",
+                   sample={"function": p.qualname, "observed_from": o[2] if o else None, "predicted_from": pr[2] if pr else None})
+
     # ---------------- R07.3 (b): _initialize_data complement pair
     for c in fams:
         fi = method(chk, c, "_initialize_data")
